@@ -164,7 +164,7 @@ def c01(pid, tier, seed):
                         "histories = every sequence of D operations over the family's alphabet (bfs) or random walks (sim) of MC_Screen; "
                         "each record is judged by Trace_Screen: ScreenOK/LogOK/CursorOK/QuietOK/ForcedOK/GetOK")
     # concurrent callers of one stand-alone bar (suspend closures, println, finish, reset against tick / inc / set_message from another thread)
-    return add_final_state_clause(res, pid, tier, seed, [("single", 4, False)] if q else [("single", 6, True)])
+    return add_final_state_clause(res, pid, tier, seed, [("single", 4, False), ("single_ticker", 4, False)] if q else [("single", 6, True), ("single_ticker", 8, False)])
 
 
 def c02(pid, tier, seed):
@@ -247,7 +247,7 @@ def c03(pid, tier, seed):
     res = screen_check(pid, tier, seed, fams,
                         "histories of MC_Screen interleaving println/suspend with bar life-cycles, with exhausted limiters; LogOK = every emitted line once, in order, above the region")
     # lines of suspend closures and println calls against draws from another thread (a scheduling point before every line of a closure)
-    return add_final_state_clause(res, pid, tier, seed, [("single", 4, False), ("multi", 4, False)] if q else [("single", 5, True), ("multi", 5, True)])
+    return add_final_state_clause(res, pid, tier, seed, [("single", 4, False), ("single_ticker", 4, False), ("multi", 4, False)] if q else [("single", 5, True), ("single_ticker", 8, False), ("multi", 5, True)])
 
 
 def c04(pid, tier, seed):
